@@ -454,3 +454,16 @@ func readErrSig(w *World, api string, err error) map[string]string {
 func GCRan(w *World) bool {
 	return w.Res.Faults["vlog_gc_rewrite"]+w.Res.Faults["vlog_gc_run"]+w.Res.Faults["vlog_gc_attempt_failed"] > 0
 }
+
+// DescribeTables renders the installed tables (level, ingest flag, file id, key range).
+func DescribeTables(w *World) string {
+	var b strings.Builder
+	for _, t := range w.DB.VerifLSM().VerifTables() {
+		ing := ""
+		if t.Ingest {
+			ing = "i"
+		}
+		fmt.Fprintf(&b, "[L%d%s #%d %q..%q] ", t.Level, ing, t.FileID, t.Min, t.Max)
+	}
+	return b.String()
+}
